@@ -16,7 +16,7 @@ from . import fam_recipe as fr
 from . import gen_models as gm
 from . import pipeline as pl
 
-from ai_edge_quantizer import quantizer  # noqa: E402
+from ai_edge_quantizer import quantizer  # noqa: E402,F401
 
 TT = s.TensorType
 BO = s.BuiltinOperator
